@@ -276,6 +276,9 @@ def enumerate_specs(tier):
                         specs.append({"kind": "bn", "shape": list(shape), "affine": affine, "track": track,
                                       "momentum": momentum, "history": h})
     specs.append({"kind": "bn", "shape": [2, 1, 1, 2], "affine": True, "track": True, "momentum": "s", "history": "fef"})
+    # one sample with a spatial extent: the per-channel count is L resp. H*W (> 1), the running variance still unbiased
+    for shape, mom in (([1, 1, 2], "s"), ([1, 2, 3], None), ([1, 1, 1, 2], "s"), ([1, 1, 2, 2], 1.0)):
+        specs.append({"kind": "bn", "shape": shape, "affine": False, "track": True, "momentum": mom, "history": "ff" if mom is None else "fef"})
     for shape in ([2, 2], [2, 1, 2], [2, 1, 1, 2]):
         specs.append({"kind": "bn", "shape": shape, "default": True, "affine": True, "track": True, "momentum": 0.1, "history": "fef"})
     specs.append({"kind": "bn", "shape": [2, 1], "shapes": [[2, 1], [3, 1]], "affine": True, "track": True, "momentum": "s", "history": "ffef"})
